@@ -7,7 +7,7 @@ from impl import quiet, F
 from common import close, same_value
 from panoptica.utils.numpy_utils import _get_bbox_nd
 
-RULE = ("large-scale corpus (implementation only, metamorphic): thin-instance scenes embedded in 2-D canvases of 2.1M-4.3M voxels at offsets of every parity, plain and mirrored; small scenes in 3-D volumes of 1.3M-4.35M voxels; one matched instance of 2060^2 voxels under even/odd padding and mirroring; base pairs (objects on every face of the array, thin/diagonal/split/merged instances) x input types x matchers "
+RULE = ("semantic volumes with an axis of length one (diagonal contacts) and volumes without any background voxel, under the same transformations; large-scale corpus (implementation only, metamorphic): thin-instance scenes embedded in 2-D canvases of 2.1M-4.3M voxels at offsets of every parity, plain and mirrored; small scenes in 3-D volumes of 1.3M-4.35M voxels; one matched instance of 2060^2 voxels under even/odd padding and mirroring; base pairs (objects on every face of the array, thin/diagonal/split/merged instances) x input types x matchers "
         "(thresholds below and at 1/2) x {zero padding 0-3 per side per axis, cropping of shared empty margins, every "
         "subset of axis flips, every axis permutation} x memory layouts {C, Fortran, negative strides, non-contiguous view} chosen independently for the two maps; embedding in volumes of more than 2^20 voxels; "
         "plus model/implementation correspondence of the bounding box (all paddings) and of the whole-pair crop; "
@@ -329,9 +329,40 @@ def corpus(ctx):
     one_case(ctx, pred, ref, E.mk_cfg("SEMANTIC", ["IOU", "DSC"], matcher=E.naive("IOU", (3, 10))), "corpus.contested")
 
 
+def special_pair(rng):
+    """(a) a volume with an axis of length one whose blobs touch only across corners / edges; (b) a volume without
+    any background voxel carrying two or three class values"""
+    if rng.random() < 0.6:
+        H, W = rng.randint(5, 8), rng.randint(5, 8)
+        a = np.zeros((H, W), np.uint8)
+        k = rng.randint(2, min(H, W) - 1)
+        for t in range(k):
+            a[t, t] = 1                       # diagonal chain: one component under full connectivity, k under face connectivity
+        a[H - 1, 0:2] = 1
+        b = a.copy()
+        b[0, 0] = 0
+        if rng.random() < 0.5:
+            b[H - 1, 2] = 1
+        ax = rng.randint(0, 2)
+        return np.expand_dims(b, ax), np.expand_dims(a, ax), "singleton_axis"
+    shape = tuple(rng.randint(2, 4) for _ in range(3))
+    labs = rng.choice([[1, 2], [1, 2, 3]])
+    ref = np.array([rng.choice(labs) for _ in range(int(np.prod(shape)))], np.uint8).reshape(shape)
+    pred = ref.copy()
+    for _ in range(rng.randint(0, 3)):
+        pred[tuple(rng.randrange(n) for n in shape)] = rng.choice(labs)
+    return pred, ref, "no_background"
+
+
 def run_cases(ctx, n, tag):
     rng = ctx.rng
     for i in range(n):
+        if rng.random() < 0.15:
+            pred, ref, kind = special_pair(rng)
+            ctx.count("special." + kind)
+            cfg = E.mk_cfg("SEMANTIC", ["IOU", "DSC"], matcher=E.naive("IOU", (1, 2)), backend=rng.choice([None, None, "cc3d"]))
+            one_case(ctx, pred, ref, cfg, f"{tag}{i}.{kind}")
+            continue
         pred, ref = border_pair(rng)
         one_case(ctx, pred, ref, rand_cfg(rng), f"{tag}{i}")
         if i % 2 == 0:
